@@ -20,8 +20,10 @@ fn plans(_t: Tier) -> Vec<&'static str> {
     COLLECTING_PLANS.to_vec()
 }
 
+/// "" = default options; "noref" = reference types and finalizers disabled by option (the
+/// VM-side weak processing must not depend on MMTk's own reference processors being scheduled).
 fn variants(_plan: &str, _t: Tier) -> Vec<&'static str> {
-    vec![""]
+    vec!["", "noref"]
 }
 
 fn alphabet(_plan: &str, _v: &str, t: Tier) -> Alphabet {
@@ -38,7 +40,16 @@ fn alphabet(_plan: &str, _v: &str, t: Tier) -> Alphabet {
     }
 }
 
-fn depth(plan: &str, _v: &str, t: Tier) -> usize {
+fn depth(plan: &str, v: &str, t: Tier) -> usize {
+    let d = depth_main(plan, t);
+    if v == "noref" {
+        (d - 1).max(3)
+    } else {
+        d
+    }
+}
+
+fn depth_main(plan: &str, t: Tier) -> usize {
     match (plan, t) {
         ("MarkCompact", Tier::Quick) | ("PageProtect", Tier::Quick) => 3,
         (_, Tier::Quick) => 4,
@@ -47,8 +58,13 @@ fn depth(plan: &str, _v: &str, t: Tier) -> usize {
     }
 }
 
-fn boot(plan: &str, _v: &str, _t: Tier) -> BootCfg {
-    BootCfg::new(plan)
+fn boot(plan: &str, v: &str, _t: Tier) -> BootCfg {
+    let mut c = BootCfg::new(plan);
+    if v == "noref" {
+        c.options.push(("no_reference_types".to_string(), "true".to_string()));
+        c.options.push(("no_finalizer".to_string(), "true".to_string()));
+    }
+    c
 }
 
 pub fn owns(sig: &str) -> bool {
@@ -78,7 +94,7 @@ pub const PROFILE: Profile = Profile {
     owns,
     nontrivial,
     filter,
-    rule: "every program of length <= depth over {alloc 40 B, ephemeron chain of length n in {1,3} ({1,2,3} thorough): key in a root + n unrooted values with weak-table entries key->v1->...->vn, weak-table entry root->root (incl. self and cyclic entries), write root.f0, drop root, GC(normal), GC(exhaustive)} containing a weak-table operation, per collecting plan; oracle inside each process_weak_refs upcall: every object of the closure stages completed so far (computed from the shadow heap, by pre-collection address) is_reachable; per collection: rounds numbered 1..n, all but the last returned true, the last false, n == chain depth + 1, forward_weak_refs exactly once after the last round in MarkCompact/Compressor and never elsewhere; after the collection the weak table holds exactly the entries with reachable keys with updated addresses and the graph check follows it. distinct_nontrivial = programs in which some collection needed >= 1 extra round",
+    rule: "every program of length <= depth over {alloc 40 B, ephemeron chain of length n in {1,3} ({1,2,3} thorough): key in a root + n unrooted values with weak-table entries key->v1->...->vn, weak-table entry root->root (incl. self and cyclic entries), write root.f0, drop root, GC(normal), GC(exhaustive)} containing a weak-table operation, per collecting plan, with default options and (one level shallower) with no_reference_types / no_finalizer set; oracle inside each process_weak_refs upcall: every object of the closure stages completed so far (computed from the shadow heap, by pre-collection address) is_reachable; per collection: rounds numbered 1..n, all but the last returned true, the last false, n == chain depth + 1, forward_weak_refs exactly once after the last round in MarkCompact/Compressor and never elsewhere; after the collection the weak table holds exactly the entries with reachable keys with updated addresses and the graph check follows it. distinct_nontrivial = programs in which some collection needed >= 1 extra round",
     post: Some(post),
     timeout_s: |t| t.pick(300, 3000),
 };
